@@ -1,20 +1,27 @@
 //! `harness <history-file>`: run histories (docs/FORMAT.md) on the real milhouse crate and print
 //! the trace on stdout.
+//!
+//! Extras (see README.md): `--isolate [--timeout=S] [--mem-mb=M]` runs every history in a forked
+//! child so that aborts / OOM / endless loops cost one history, not the whole run;
+//! `--selfcheck` compares a few roots against `ssz_types`.
 
+mod coll;
 mod configs;
 mod driver;
 mod elem;
+mod isolate;
 mod obs;
 mod ops;
+mod selfcheck;
 
 use std::io::Write;
 use std::process::exit;
 
-struct History {
-    kind: String,
-    n: u64,
-    map: String,
-    ops: Vec<String>,
+pub struct History {
+    pub kind: String,
+    pub n: u64,
+    pub map: String,
+    pub ops: Vec<String>,
 }
 
 fn parse_file(text: &str) -> Result<Vec<History>, String> {
@@ -57,16 +64,56 @@ fn parse_file(text: &str) -> Result<Vec<History>, String> {
     Ok(histories)
 }
 
+/// Run history `idx` in this process. `Err` = unparsable history text.
+pub fn run_one(idx: usize, h: &History, out: &mut configs::Out) -> Result<(), String> {
+    let header = |out: &mut configs::Out| {
+        let _ = writeln!(out, "H {idx} {} {} {}", h.kind, h.n, h.map);
+    };
+    let r = match configs::dispatch(&h.kind, h.n, &h.map, &h.ops, out, &header) {
+        None => {
+            let _ = writeln!(out, "H {idx} unsupported");
+            Ok(())
+        }
+        Some(r) => r.map_err(|e| format!("history {idx}: {e}")),
+    };
+    let _ = out.flush();
+    r
+}
+
+fn usage() -> ! {
+    eprintln!("usage: harness [--isolate [--timeout=SECS] [--mem-mb=MB]] <history-file>");
+    eprintln!("       harness --selfcheck");
+    exit(2);
+}
+
 fn main() {
-    let args: Vec<String> = std::env::args().collect();
-    if args.len() != 2 {
-        eprintln!("usage: harness <history-file>");
-        exit(2);
+    let mut isolate = false;
+    let mut limits = isolate::Limits {
+        timeout_secs: 60,
+        mem_mb: 8192,
+    };
+    let mut file: Option<String> = None;
+    for arg in std::env::args().skip(1) {
+        if arg == "--selfcheck" {
+            exit(selfcheck::run());
+        } else if arg == "--isolate" {
+            isolate = true;
+        } else if let Some(v) = arg.strip_prefix("--timeout=") {
+            limits.timeout_secs = v.parse().unwrap_or_else(|_| usage());
+        } else if let Some(v) = arg.strip_prefix("--mem-mb=") {
+            limits.mem_mb = v.parse().unwrap_or_else(|_| usage());
+        } else if arg.starts_with("--") || file.is_some() {
+            usage();
+        } else {
+            file = Some(arg);
+        }
     }
-    let text = match std::fs::read_to_string(&args[1]) {
+    let Some(file) = file else { usage() };
+
+    let text = match std::fs::read_to_string(&file) {
         Ok(t) => t,
         Err(e) => {
-            eprintln!("harness: cannot read {}: {e}", args[1]);
+            eprintln!("harness: cannot read {file}: {e}");
             exit(2);
         }
     };
@@ -85,23 +132,16 @@ fn main() {
     let mut out: configs::Out = std::io::BufWriter::new(stdout.lock());
 
     for (idx, h) in histories.iter().enumerate() {
-        let header = |out: &mut configs::Out| {
-            let _ = writeln!(out, "H {idx} {} {} {}", h.kind, h.n, h.map);
+        let r = if isolate {
+            isolate::run_isolated(idx, h, &mut out, &limits)
+        } else {
+            run_one(idx, h, &mut out)
         };
-        match configs::dispatch(&h.kind, h.n, &h.map, &h.ops, &mut out, &header) {
-            None => {
-                let _ = writeln!(out, "H {idx} unsupported");
-            }
-            Some(Ok(())) => {}
-            Some(Err(e)) => {
-                let _ = out.flush();
-                eprintln!("harness: unparsable input: history {idx}: {e}");
-                exit(2);
-            }
+        if let Err(e) = r {
+            let _ = out.flush();
+            eprintln!("harness: unparsable input: {e}");
+            exit(2);
         }
-        // One flush per history: if the process is ever killed (e.g. an allocation failure
-        // aborts), the traces of all earlier histories are still complete.
-        let _ = out.flush();
     }
     let _ = out.flush();
 }
